@@ -6,4 +6,24 @@ TEXT = {
         "level_text": "Exploration: thousands of generated batches per run (small, 128-document-block and >1024-document families; every fixed chunk size that makes few-document lists multi-chunk, plus the adaptive mode) are built with New and every field's full dictionary and every posting (frequency, bit-exact norm, locations with field names, order) is compared with a model computed from the batch alone; extra terms/postings fail as well as missing ones. Sampling, not proof.",
         "level_note": "Trusts the reference model in harness/model.go and the input contract stated in the property; chunk modes other than the adaptive one are reached through the verif-tagged export.",
     },
+    "C02": {
+        "technique": "property-based testing (rapid): generated merge trees vs. reference model of the survivors and a literal rebuild with New",
+        "level_text": "Exploration: generated trees of merges (1-3 inputs per merge, inputs built/loaded/previously merged with differing field sets and chunk modes, drops nil/empty/partial/everything, drawn output chunk mode, small/128-block/>1024-document families) are observed through every read API except statistics and compared with the model of the survivors; whenever the survivors form a contract-valid batch the merged segment is also compared with a literal rebuild by New. Vanished terms are probed through Contains/PostingsList. Sampling, not proof.",
+        "level_note": "Trusts the reference model; statistics are excluded here (C16/C17 own them); doc-value comparison with the literal rebuild is skipped when the scenario mixes the doc-value flag per field instance (the model comparison still applies).",
+    },
+    "C03": {
+        "technique": "property-based testing (rapid): public Merge on generated inputs vs. arithmetic oracle on the bitmaps + unique per-document markers",
+        "level_text": "Exploration: thousands of generated merges through the public Merge(...).WriteTo (1-4 inputs incl. empty, all-dropped and previously merged segments, all buffer sizes) whose DocumentNumbers() is compared with the mapping computed from the bitmaps alone, and whose content is located by a unique stored marker and _id term per document at exactly the reported new number.",
+        "level_note": "Trusts roaring bitmap membership and the harness' marker bookkeeping; only the adaptive chunk mode is reachable through the public API.",
+    },
+    "C04": {
+        "technique": "property-based testing (rapid): persist/load round trip (memory- and file-backed) over generated build/merge trees, observational equality",
+        "level_text": "Exploration: generated segments (built or trees of merges up to depth 3 incl. empty batches and zero-survivor merges, every chunk mode, three size families) are persisted, checked for the returned byte count, loaded memory-backed (exact-capacity slice) and file-backed, and all read APIs incl. statistics, chunk mode and version must answer identically to the original and (except statistics) to the model.",
+        "level_note": "Trusts os temp files for the file-backed path and the reference model; panics are caught and reported as violations.",
+    },
+    "C06": {
+        "technique": "property-based testing (rapid): generated visit sequences with early-stopping visitors vs. per-document model of stored values",
+        "level_text": "Exploration: generated segments (small and 128-document-block families whose neighbouring blocks differ by 0..24 bytes and end in 2-byte records; built, loaded both ways, merged through the byte-copy and re-encode paths) are visited in drawn orders (last-of-block after another block, first-of-next, n >= Count) with visitors that stop after k values; every visit must deliver exactly the model's (field,value) sequence prefix.",
+        "level_note": "Trusts the reference model; values are copied inside the callback so nothing is assumed about buffer lifetime.",
+    },
 }
